@@ -785,7 +785,7 @@ def work_hit(item, res):
                     res.count('determinism_replays')
                     if canon(again) != canon(obs):
                         res.error(f'C12 hit: nondeterministic default execution {case}')
-            if item.get('selfcheck'):
+            if item.get('selfcheck') and n <= 8:
                 # the same case with stale contact knowledge: blob peers are confirmed by ping before they are queued
                 case2 = dict(case, entry='accumulate', idle=IDLE)
                 _, obs2 = fork_call(hit_case, net, ann, key, (), 0, 'full', 'accumulate', IDLE)
@@ -1277,6 +1277,7 @@ def work_term(item, res):
         base = {'half': 'term', 'n': n, 'searcher': searcher, 'seed': seed}
         wedged = set()
         judged = set()
+        rechecked = 0
         for assign in item['assigns']:
             assign = tuple(assign)
             judged.add(assign)
@@ -1288,7 +1289,8 @@ def work_term(item, res):
                 wedged.add(assign)
             for sig, what in viol:
                 res.violation(sig, what, replay_dict(case))
-            if viol or item.get('selfcheck'):
+            if (viol and rechecked < 2) or item.get('selfcheck'):
+                rechecked += 1 if viol else 0
                 _, again = fork_call(term_case, net, searcher, assign)
                 res.count('determinism_replays')
                 if canon(again) != canon(obs):
@@ -1391,10 +1393,10 @@ def plan(tier, seed):
         for s in searchers:
             assigns = term_assignments(n, mixed=(not quick and n <= 3))
             dfs_b, dfs_a = term_dfs_scope(tier, n, s, assigns)
-            chunk = 24
-            for lo in range(0, len(assigns), chunk):
-                items.append({'half': 'term', 'n': n, 'searcher': s, 'seed': seed, 'assigns': assigns[lo:lo + chunk],
-                              'selfcheck': lo == 0})
+            chunks = max(1, (len(assigns) + 23) // 24)        # round robin: the slow (never-ending) kinds are spread out
+            for c in range(chunks):
+                items.append({'half': 'term', 'n': n, 'searcher': s, 'seed': seed, 'assigns': assigns[c::chunks],
+                              'selfcheck': c == 0 and n <= 4})
             dfs_list = [a for a in assigns if a in dfs_a]
             per = 1 if dfs_b >= 2 else 6
             for lo in range(0, len(dfs_list), per):
